@@ -179,7 +179,9 @@ var windowAlphabet = func() [][4]byte {
 // names - a header word corrupted into another *valid* word of the format.
 var wordAlphabet = []string{"char", "uchar", "short", "ushort", "int", "uint", "float", "double", "int8", "uint8", "int16", "uint16", "int32", "uint32", "float32", "float64",
 	"list", "property", "element", "vertex", "face", "vertex_index", "vertex_indices", "x", "red", "end_header", "comment", "ascii", "binary_little_endian", "binary_big_endian", "format", "ply",
-	"OFF", "solid", "endsolid", "facet", "outer", "loop", "endloop", "endfacet", "normal"}
+	"OFF", "solid", "endsolid", "facet", "outer", "loop", "endloop", "endfacet", "normal",
+	// names a format extension might introduce (a decoder that learns a new type name must learn it everywhere)
+	"int64", "uint64", "long", "ulong", "half", "float16"}
 var wordRe = regexp.MustCompile(`[A-Za-z_][A-Za-z_0-9]*`)
 
 var tokenRe = regexp.MustCompile(`[0-9+\-.eE]*[0-9][0-9+\-.eE]*`)
